@@ -146,6 +146,15 @@ def setAdd (l : List Int) (v : Int) : List Int := if l.contains v then l else l 
 /-- `v.nonzero()[0]` -/
 def nonzeroIdx (v : Vec) : List Nat := (v.zipIdx.filter fun e => e.1 ≠ 0).map (·.2)
 
+/-- insertion into an ascending list -/
+def insertAsc (a : Int) : List Int → List Int
+  | [] => [a]
+  | b :: rest => if a ≤ b then a :: b :: rest else b :: insertAsc a rest
+
+/-- CPython's `list(s)` for a set `s` of at most four non-negative ints below 8 (no collisions in
+    the 8-slot table, no resize): ascending.  This is the `order` the driver uses (sides ≤ 4). -/
+def ascending (l : List Int) : List Int := l.foldr insertAsc []
+
 /-- a Python dict keyed by planes (insertion order) -/
 abbrev PlaneDict (α : Type) := List (Int × α)
 
